@@ -322,6 +322,35 @@ pub fn run(ctx: &Ctx) {
                 junks.push(j);
             }
         }
+        // structured junk: what really precedes a storage header in a damaged file - complete
+        // messages WITHOUT storage header (self-consistent frames), two of them, stored messages
+        // whose magic is damaged or whose first byte is lost, text lines
+        let plain_junk_from = junks.len();
+        for (k, mut m) in seed_messages(ctx.tier).into_iter().enumerate().step_by(ctx.tier.pick(5, 2)) {
+            m.storage = None;
+            let plain = encode(&m).0;
+            if naive_find(&plain).is_some() {
+                continue;
+            }
+            let mut stored = m.clone();
+            stored.storage = Some(storage(0x0A0B_0C0D, 0x0000_0102, "JNK"));
+            let stored = encode(&stored).0;
+            junks.push(plain.clone());
+            if k % 2 == 0 {
+                let mut two = plain.clone();
+                two.extend_from_slice(&plain);
+                junks.push(two);
+                let mut damaged = stored.clone();
+                damaged[3] = 0x02;
+                junks.push(damaged);
+                junks.push(stored[1..].to_vec());
+            }
+        }
+        junks.push(b"-- log rotated --\r\n".to_vec());
+        junks.push(vec![0x20, 0x00, 0x00, 0x08, 1, 2, 3, 4]);
+        junks.push(vec![0x20, 0x00, 0x00, 0x04]);
+        let structured = junks.len() - plain_junk_from;
+        ctx.put("structured_junk_strings", json!(structured));
         let msgs: Vec<Vec<u8>> = seed_messages(ctx.tier)
             .into_iter()
             .step_by(ctx.tier.pick(2, 1))
@@ -343,14 +372,16 @@ pub fn run(ctx: &Ctx) {
         let sp = Space::new(&[junks.len(), msgs.len(), suffixes.len()]);
         let s2 = sp.clone();
         let (junks, msgs, suffixes) = (&junks, &msgs, &suffixes);
-        ctx.run_family(Family::new("c06.parse.junk_message", sp.size(), format!("{} junk strings (all strings of length <= {} over {{D,L,T,01,00,X}} without the pattern, incl. every partial-pattern tail; 15/16/17-byte and 70000-byte junk; every length 6..={} plain and ending in D / DL / DLT) x {} storage-header messages (incl. messages carrying the pattern as content) x 4 suffixes, each also under 4 filter configurations", junks.len(), ctx.tier.pick(5, 6), ctx.tier.pick(72, 320), msgs.len()), move |i, loc| {
+        ctx.run_family(Family::new("c06.parse.junk_message", sp.size(), format!("{} junk strings (all strings of length <= {} over {{D,L,T,01,00,X}} without the pattern, incl. every partial-pattern tail; 15/16/17-byte and 70000-byte junk; every length 6..={} plain and ending in D / DL / DLT; structured junk: complete messages without storage header, two of them, stored messages with a damaged magic or a lost first byte, a text line, minimal frames) x {} storage-header messages (incl. messages carrying the pattern as content) x 4 suffixes, each also under 4 filter configurations", junks.len(), ctx.tier.pick(5, 6), ctx.tier.pick(72, 320), msgs.len()), move |i, loc| {
             let c = s2.coords(i);
             judge_junk(&junks[c[0]], &msgs[c[1]], &suffixes[c[2]], loc);
         }));
         // streams j0 m1 j1 m2 j2 m3 j3
         let sm: Vec<&Vec<u8>> = msgs.iter().step_by((msgs.len() / ctx.tier.pick(6, 12)).max(1)).take(ctx.tier.pick(6, 12)).collect();
         let sj: Vec<Vec<u8>> = vec![vec![], b"D".to_vec(), b"DLT".to_vec(), b"XDL".to_vec(), b"DLTD\0".to_vec(), vec![0; 17]];
-        let sj: Vec<Vec<u8>> = sj.into_iter().take(ctx.tier.pick(4, 6)).collect();
+        let mut sj: Vec<Vec<u8>> = sj.into_iter().take(ctx.tier.pick(4, 6)).collect();
+        // a self-consistent frame without storage header as junk between stored messages
+        sj.push(vec![0x20, 0x00, 0x00, 0x08, 1, 2, 3, 4]);
         let (nm, nj) = (sm.len(), sj.len());
         let sp = Space::new(&[nm, nm, nm, nj, nj, nj, nj]);
         let s2 = sp.clone();
